@@ -623,3 +623,94 @@ def cumulative(ctx):
     else:
         ctx.inconclusive.append("vacuity: correlate never completed")
     ctx.sample({"paths": E.paths})
+
+
+# ---------------------------------------------------------------------------------------
+# O8: the members of a NAMELIST group are looked up like any other name: through use association, under their LOCAL names
+# ---------------------------------------------------------------------------------------
+NL_USE_A = [("use mod_a, only: x", {"x": ("mod_a", "x")}), ("use mod_a", {"x": ("mod_a", "x"), "tol": ("mod_a", "tol")}),
+            ("use mod_a, only: ax => x", {"ax": ("mod_a", "x")}), ("USE MOD_A, ONLY: AX => X, tol", {"ax": ("mod_a", "x"), "tol": ("mod_a", "tol")}),
+            ("use mod_c", {"ctol": ("mod_a", "tol")})]
+NL_USE_B = [("use mod_b, only: bx => x", {"bx": ("mod_b", "x")}), ("use mod_b, bx => x", {"bx": ("mod_b", "x"), "y": ("mod_b", "y")}), ("use mod_b, only: y", {"y": ("mod_b", "y")})]
+NL_NAMES = ["x", "ax", "bx", "tol", "ctol", "loc", "X", "Bx", "y", "nowhere"]
+
+
+def _nl_files(ua, ub, n1, n2):
+    return {"a.f90": ["module mod_a", "integer :: x, tol", "end module mod_a"],
+            "b.f90": ["module mod_b", "real :: x, y", "end module mod_b"],
+            "c.f90": ["module mod_c", "use mod_a, only: ctol => tol", "end module mod_c"],
+            "p.f90": ["program main", ua, ub, "integer :: loc", "namelist /settings/ " + n1 + ", " + n2, "end program main"]}
+
+
+def nl_rule(ma, mb, name):
+    vis = {**ma, **mb, "loc": ("main", "loc")}
+    return vis.get(name.lower())
+
+
+def _nl_observe(p):
+    nl = list(p.programs[0].namelists)
+    if len(nl) != 1:
+        return "MISSING"
+    return [v if isinstance(v, (str, CV)) else ("->", str(getattr(v.parent, "name", "?")).lower(), str(v.name).lower()) for v in nl[0].variables]
+
+
+def _nl_norm(v):
+    return (v[1], v[2]) if isinstance(v, (tuple, list)) and len(v) == 3 and v[0] == "->" else None
+
+
+def replay_nl(w):
+    import ford.sourceform as sf
+    old = sf.namelist
+    sf.namelist = sf.NameSelector()
+    try:
+        p = parserh.project_concrete(_nl_files(*w["slots"]), **CSET)
+        obs = _nl_observe(p)
+    finally:
+        sf.namelist = old
+    got = [list(_nl_norm(v)) if _nl_norm(v) else None for v in obs] if obs != "MISSING" else obs
+    return got != w["expected"], {"program": _nl_files(*w["slots"])["p.f90"], "namelist members resolved to": got, "use association": w["expected"]}
+
+
+@obligation("C06", "O8.namelist-members-follow-use-association", engine="SX(CV)", timeout=900)
+def namelist_members(ctx):
+    """program with two symbolic USE statements (whole module, ONLY, renames, a re-exporting module) and a NAMELIST naming two symbolic
+    names: each member resolves to the variable its LOCAL name is associated with (or stays unresolved)"""
+    import ford.sourceform as sf
+
+    ctx.encode_fn(sf.FortranNamelist.correlate)
+    ctx.encode_fn(sf.FortranCodeUnit.correlate)
+    ctx.encode_fn(sf.FortranModule.get_used_entities)
+    ctx.bounds.update({"first statements": len(NL_USE_A), "second statements": len(NL_USE_B), "member names": len(NL_NAMES)})
+
+    def h(E):
+        a = CV.choice(E, "use_a", NL_USE_A)
+        b = CV.choice(E, "use_b", NL_USE_B)
+        n1 = CV.choice(E, "n1", NL_NAMES)
+        n2 = CV.choice(E, "n2", NL_NAMES)
+        E.assume(choice.apply(lambda p_, q_: p_.lower() != q_.lower(), n1, n2))
+        h.state = (a, b, n1, n2)
+        want = [choice.apply(nl_rule, a[1], b[1], n1), choice.apply(nl_rule, a[1], b[1], n2)]
+        h.want = want
+        obs = parserh.project(_nl_files(a[0], b[0], n1, n2), post=_nl_observe, **CSET)
+        E.reachable("correlated")
+        if obs == "MISSING" or len(obs) != 2:
+            E.require(False, "the namelist group or one of its members is not reported")
+            return
+        for g, w_ in zip(obs, want):
+            E.require(choice.apply(lambda g_, x: _nl_norm(g_) == x, g, w_), "namelist member resolved against use association")
+
+    E = sym.Engine(ctx, max_paths=20000, incremental=True)
+    found = E.explore(h)
+    seen = set()
+    for (label, m, pc), A in list(zip(found, E.autosnaps)):
+        if label in seen:
+            continue
+        seen.add(label)
+        a, b, n1, n2 = (choice.value_in_model(m, x) for x in A["state"])
+        exp = [(lambda r: list(r) if r else None)(choice.value_in_model(m, x)) for x in A["want"]]
+        ctx.report(label, {"slots": [a[0], b[0], n1, n2], "expected": exp}, replay_nl)
+    if E.reached.get("correlated"):
+        ctx.twins += 1
+    else:
+        ctx.inconclusive.append("vacuity: correlate never completed")
+    ctx.sample({"paths": E.paths})
